@@ -21,7 +21,7 @@ add("C04", False, "E1-enumerator", "exhaustive enumeration of all connected mult
 add("C05", False, "E1-enumerator", "exhaustive enumeration of a finite family (graph family x size x perturbation pattern x noise pattern x radius x tol) inside calibrated radii; oracle = chi2 monotone, independent Newton decrement, ground truth recovery",
     "Every combination of the stated finite family is optimised; the returned state must not increase chi2, must be stationary by an independently computed Newton decrement, and must reproduce ground truth when noise-free.",
     "claim limited to the calibrated neighbourhood and the listed families; reference error model + 5-point Jacobians trusted", "DESIGN.md 4 C05")
-add("C06", False, "E1-enumerator + fault enumeration", "exhaustive enumeration of graph shapes x fixed subsets (incl. isolated/all/landmark fixed) x deviation-bounded solver faults (0,1,2 injected answers) x iteration counts",
+add("C06", True, "E1-enumerator + fault enumeration", "exhaustive enumeration of graph shapes x fixed subsets (incl. isolated/all/landmark fixed) x deviation-bounded solver faults (0,1,2 injected answers) x iteration counts",
     "Fixed vertices are compared bitwise before/after optimize in every outcome (normal, singular, diverged, solver fault, exception); free vertices are compared with the reduced reference problem.",
     "solver seam = module global graphslam.graph.spsolve (fault layer switches itself off and says so if the name disappears)", "DESIGN.md 4 C06")
 add("C07", False, "E2-explorer", "explicit-state exploration of the (Gauss-Newton step, left-transform) state graph: commuting squares checked at every reachable state up to depth 5",
